@@ -15,8 +15,8 @@ def _ast(name, atoms, nodes, syms, strlen, count_from=0, quants="full", groups=1
 
 
 QUICK = [
-    dict(name="known-defect-witnesses", driver=D, args=["--space", "known"]),
-    dict(name="malformed-catalogue+badquant-n3", driver=D, args=["--space", "malformed", "--nodes", 3]),
+    dict(name="known-defect-witnesses", driver=D, args=["--space", "known", "--case-timeout", 120]),
+    dict(name="malformed-catalogue+badquant-n3", driver=D, args=["--space", "malformed", "--nodes", 3, "--case-timeout", 120]),
     _ast("ast-full-n3-len4", "full", 3, "full", 4),
     _ast("ast-small-n4-len4", "small", 4, "abc", 4, count_from=4),
     _ast("ast-tiny-n5-len4", "tiny", 5, "abc", 4, count_from=5, quants="mini", groups=0),
@@ -27,11 +27,11 @@ QUICK = [
 ]
 
 THOROUGH = [
-    dict(name="known-defect-witnesses", driver=D, args=["--space", "known"]),
-    dict(name="malformed-catalogue+badquant-n4", driver=D, args=["--space", "malformed", "--nodes", 4]),
+    dict(name="known-defect-witnesses", driver=D, args=["--space", "known", "--case-timeout", 120]),
+    dict(name="malformed-catalogue+badquant-n4", driver=D, args=["--space", "malformed", "--nodes", 4, "--case-timeout", 120]),
     _ast("ast-full-n4-len3", "full", 4, "full", 3, extra=["--xopts", "X,XFH"]),
     _ast("ast-full-n3-len5", "full", 3, "full", 5, count_from=99, extra=["--xopts", "X,XFH", "--popts", "-,FH"]),
-    _ast("ast-small4-n5-len4", "small4", 5, "abc", 4, count_from=5, extra=["--xopts", "X,XFH", "--case-timeout", 300]),
+    _ast("ast-small4-n5-len3", "small4", 5, "abc", 3, count_from=5, extra=["--xopts", "X,XFH", "--case-timeout", 300]),
     _ast("ast-tiny-n6-len4", "tiny", 6, "abc", 4, count_from=6, quants="mini", groups=0, extra=["--xopts", "X,XFH", "--case-timeout", 300]),
     dict(name="flags-ismx-n4-len3", driver=D, args=["--space", "flags", "--nodes", 4, "--strlen", 3, "--fh", "-,FH"]),
     dict(name="history-n3", driver=D, args=["--space", "history", "--nodes", 3]),
